@@ -1562,6 +1562,11 @@ class Interp:
                 return False
             return False
         if isinstance(a, Opaque) or isinstance(b, Opaque):
+            hook = getattr(self, "opaque_equal", None)
+            if hook is not None and isinstance(a, Opaque) and isinstance(b, Opaque):
+                r_ = hook(a, b, site)
+                if r_ is not None:
+                    return r_
             return a is b
         if isinstance(a, Sym) and a.overflow and (_isnum(b) or (isinstance(b, Sym) and b.overflow)):
             a = a.as_inf()
@@ -2729,6 +2734,11 @@ class Interp:
                 return None
             if name == "copy":
                 return AList(list(recv.items), recv.pytype, recv.nondet)
+            if name == "pop" and recv.pytype == "list" and (not args or isinstance(args[0], int)):
+                try:
+                    return recv.items.pop(*args)
+                except IndexError:
+                    raise RaiseSig("IndexError", site)
             if name == "clear" and recv.pytype == "list":
                 del recv.items[:]
                 return None
@@ -2832,6 +2842,10 @@ class Interp:
             return AHash(algo.lower(), rest[:1])
         if q in ("binascii.hexlify",) and args and isinstance(args[0], ADigest) and args[0].kind == "bytes":
             return self.method(args[0], "hex", [], {}, site)
+        if q == "sys.getrecursionlimit":
+            return 1000
+        if q in ("sys.setrecursionlimit", "sys.setswitchinterval", "gc.collect", "gc.disable", "gc.enable"):
+            return None            # process settings do not change what text is generated (C17 judges the call itself)
         if q in ("functools.partial", "partial") and args:
             return PartialVal(args[0], list(args[1:]), dict(kwargs))
         if q in ("functools.wraps", "wraps", "functools.update_wrapper"):
